@@ -233,6 +233,6 @@ pub fn spec() -> PropSpec {
         rule: "replay and iterate loops whose body merges / hash-joins / broadcast-joins the loop stream with a stream created outside the loop, side input of 0, 1 and 3 elements (one or several batches: batch size 1 and 1024), 1-3 rounds, parallelism 1-2; a probe inside the body records what the body produces in every round: it must equal what the complete side input gives, in every round; final state / iterate output must match the sequential loop and the job must terminate; every schedule within the deviation bound under three canonical orders (which decides whether a side batch is cached before or after the first round closes); non-trivial = non-empty side input and at least 2 rounds",
         assumptions: &["deviation bound as reported", "the cache of the two-input Start cannot be driven in isolation (its state lock needs the loop head), so this property is checked on whole jobs only"],
         exhaustive_when_uncapped: false,
-        budget_s: (55, 2400),
+        budget_s: (55, 1500),
     }
 }
